@@ -1,11 +1,15 @@
 //! Harness for the layer / filter properties: C07 C08 C09 C11 C12.
+mod c07;
 mod c09;
 mod c09_stacks;
 mod rl;
+mod stack;
 
 fn main() {
     let args = mc::parse_args();
     let code = match args.property.as_str() {
+        "C07" => c07::run(&args),
+        "BENCH07" => { c07::bench(); 0 }
         "C09" => c09::run(&args),
         p => {
             eprintln!("h_filt: unknown property {}", p);
